@@ -275,7 +275,13 @@ def sweep (U : Universe) (s : St) : List Ent → St × Outcome
       | (s', .ok) => sweep U s' es
       | r => r
 
-def isPerm (a b : List Nat) : Bool := Proto.sortNats a == Proto.sortNats b
+def nodupB : List Nat → Bool
+  | [] => true
+  | a :: l => !l.contains a && nodupB l
+
+/-- `a` is a permutation of the duplicate-free list `b` (a Python set) -/
+def isPerm (a b : List Nat) : Bool :=
+  nodupB a && a.all (b.contains ·) && b.all (a.contains ·) && a.length == b.length
 
 /-- `_clear_dead_entities` (world.py:306-318); the iteration order of the set is taken from a
 validated hint -/
